@@ -397,6 +397,52 @@ func portScenario(paths []string, behaviours []string, bound int) e1.Scenario {
 	return e1.Scenario{Name: fmt.Sprintf("fixed-port/%v/%v", paths, behaviours), Bound: bound, Body: body, Check: check}
 }
 
+// nonPositiveTimeoutScenario: a client configured with a timeout of zero (or a negative one - a
+// computed value gone wrong). "Within the configured timeout" then means at once: the call comes
+// back immediately (it cannot have waited for anything), and nothing stays open - it never means
+// "no deadline".
+func nonPositiveTimeoutScenario(path, op string, tv time.Duration, bind uint16) e1.Scenario {
+	var start, end int64
+	var err error
+	var done bool
+	body := func() {
+		T = tv
+		done, err = false, nil
+		w := newWorld()
+		vs.Net().Env = w.f
+		beh := "silence"
+		if path == "tcp" {
+			beh = "stall"
+		}
+		w.set(step{path: path, behaviour: beh, op: op})
+		u := mkClient(bind)
+		start = vs.NowNs()
+		err = invoke(u, step{path: path, op: op})
+		end = vs.NowNs()
+		done = true
+	}
+	check := func(e *vs.Exec) (string, []e1.Viol) {
+		T = time.Second
+		viols := e1.Generic(e)
+		if e.Abort != "" {
+			return e.Abort, viols
+		}
+		what := fmt.Sprintf("%s on the %s path, client timeout %v, bind port %d, controller silent", op, path, tv, bind)
+		if !done {
+			viols = append(viols, e1.Viol{Key: "non-positive-timeout/call-never-returned", What: what})
+			return "never", viols
+		}
+		if d := time.Duration(end - start); d > eps {
+			viols = append(viols, e1.Viol{Key: "non-positive-timeout/" + path + "/waited", What: fmt.Sprintf("%s: returned after %v (err=%v)", what, d, err)})
+		}
+		if open := vs.Net().OpenSockets(); len(open) > 0 {
+			viols = append(viols, e1.Viol{Key: "non-positive-timeout/socket-leak", What: what + ": " + fmt.Sprint(open)})
+		}
+		return fmt.Sprintf("timeout<=0 %s ok=%v", path, err == nil), viols
+	}
+	return e1.Scenario{Name: fmt.Sprintf("non-positive-timeout/%v/%s/%s/bind=%d", tv, path, op, bind), Bound: 1, Body: body, Check: check, Opt: vs.Options{Horizon: 3000}}
+}
+
 // floodN: how many irrelevant datagrams the big-flood behaviours deliver within one timeout
 var floodN = 5000
 
@@ -599,6 +645,15 @@ func main() {
 			}
 		}
 	}
+	// client timeouts of zero and below
+	for _, tv := range []time.Duration{0, -time.Second, -1} {
+		for _, bind := range []uint16{0, 60001} {
+			for _, p := range []string{"udp", "tcp", "broadcast"} {
+				scenarios = append(scenarios, nonPositiveTimeoutScenario(p, "GetCards", tv, bind))
+			}
+			scenarios = append(scenarios, nonPositiveTimeoutScenario("broadcast", "GetDevices", tv, bind))
+		}
+	}
 	if r.Thorough() {
 		e1.PerScenario = 6 * time.Minute
 	}
@@ -606,7 +661,7 @@ func main() {
 	if r.Worker == "" && r.Replay == "" {
 		e1.Conformance(r)
 	}
-	r.Rule(fmt.Sprintf("histories: every sequence of length <= %d (fixed bind port: <= %d) over %d steps (path x network behaviour incl. silence, late and just-in-time replies, stray flood, TCP stall/refused/reset/EOF/blackhole/connection established late, ICMP unreachable, SetAddress, discovery), step by step as environment choices; histories of length <= 2 again with client timeouts of 300 ms, 1.5 s, 2.5 s and 90 s; fixed-port scenarios with 2 and 3 concurrent callers (silent holders first; TCP refused / reset / EOF / blackholed next to calls that must be served) over all interleavings within the preemption bound; the fixed bind port held by a foreign socket that lets go of it at 0.05 / 0.25 / 0.5 / 0.9 T or never (3 paths x 2 controller behaviours); 5000 (thorough 70000) irrelevant datagrams within one timeout on the broadcast path, with and without a just-in-time reply (default schedule). distinct = distinct history/outcome labels", maxLen, maxFixed, len(alphabet)))
+	r.Rule(fmt.Sprintf("histories: every sequence of length <= %d (fixed bind port: <= %d) over %d steps (path x network behaviour incl. silence, late and just-in-time replies, stray flood, TCP stall/refused/reset/EOF/blackhole/connection established late, ICMP unreachable, SetAddress, discovery), step by step as environment choices; histories of length <= 2 again with client timeouts of 300 ms, 1.5 s, 2.5 s and 90 s; client timeouts of 0, -1 ns and -1 s (the call comes back at once); fixed-port scenarios with 2 and 3 concurrent callers (silent holders first; TCP refused / reset / EOF / blackholed next to calls that must be served) over all interleavings within the preemption bound; the fixed bind port held by a foreign socket that lets go of it at 0.05 / 0.25 / 0.5 / 0.9 T or never (3 paths x 2 controller behaviours); 5000 (thorough 70000) irrelevant datagrams within one timeout on the broadcast path, with and without a just-in-time reply (default schedule). distinct = distinct history/outcome labels", maxLen, maxFixed, len(alphabet)))
 	r.Assume("virtual time: computation takes no time, so 'within the timeout' is decided with zero scheduling slack")
 	r.Assume("network behaviours are those of mc/shim/vs/net.go (refused connect fails immediately, blackholed connect blocks until the dial deadline, ICMP unreachable surfaces as a read error)")
 	r.Finish()
